@@ -17,6 +17,11 @@
 (*    at 9 ranks; the mean must be 0: |sum| <= 6 sqrt(sum of squares)       *)
 (*    + 0.002 T  (6 standard errors of the sum, the second moment bounding  *)
 (*    the variance, + slack).                                               *)
+(* The directed REQ group "req-mixed-k" (depth-2 trees with the small k      *)
+(* below the top, e.g. A(24).merge(B(24).merge(C(4)))) is judged apart: a   *)
+(* failure of its coverage prints Known("C08:req-mixed-k-merge-bounds")     *)
+(* (known_findings.json) and the trace continues; its other clauses (n,     *)
+(* bounds ordered around the estimate) are hard checks.                     *)
 (* Failure fractions: observed <= p + 6 sqrt(p (1 - p) / T) + 0.02 with     *)
 (* p the claimed failure rate and T the number of TRIALS of the group (the  *)
 (* queries of one trial are correlated).  Any seed passes on a tree where   *)
@@ -32,9 +37,18 @@ Abs(x) == IF x < 0 THEN 0 - x ELSE x
 Zero == [T |-> 0, q |-> 0, exc |-> 0, pmfexc |-> 0, fail |-> <<0, 0, 0>>, sum |-> <<>>, sq |-> <<>>]
 Get(g) == IF g \in DOMAIN acc THEN acc[g] ELSE Zero
 Out(e, s) == Count(e.truth, LAMBDA i : ~(e["lb" \o s][i] - 1 <= e.truth[i] /\ e.truth[i] <= e["ub" \o s][i] + 1))
+Coverage(a) == /\ a.fail[1] * 10000 <= Allowed(3173, a.T) * a.q
+               /\ a.fail[2] * 10000 <= Allowed(455, a.T) * a.q
+               /\ a.fail[3] * 10000 <= Allowed(27, a.T) * a.q
+\* lb3 <= lb2 <= lb1 <= estimate <= ub1 <= ub2 <= ub3 (ppm; the library does not clamp the bounds to [0, 1] and nothing claims it does)
+BoundsOrdered(e) == \A i \in DOMAIN e.truth :
+  /\ e.lb3[i] <= e.lb2[i] /\ e.lb2[i] <= e.lb1[i] /\ e.lb1[i] <= e.est[i]
+  /\ e.est[i] <= e.ub1[i] /\ e.ub1[i] <= e.ub2[i] /\ e.ub2[i] <= e.ub3[i]
 TBegin == IsEvent("Begin") /\ acc' = <<>>
 TTrial == IsEvent("Trial") /\ LET e == Log[l]  a == Get(e.group) IN
   /\ Chk("n", e.sn = e.n)
+  /\ Chk("req-bounds-ordered", e.kind = "bounds" => BoundsOrdered(e))
+  /\ Chk("harness:mixed-k-group-is-bounds", e.group = "req-mixed-k" => e.kind = "bounds")
   /\ acc' = (e.group :>
       (CASE e.kind = "eps" ->
               [a EXCEPT !.T = @ + 1, !.q = @ + Len(e.errs), !.exc = @ + Count(e.errs, LAMBDA i : e.errs[i] > e.eps),
@@ -51,9 +65,14 @@ TVerdict == IsEvent("Verdict") /\ LET e == Log[l] IN
   /\ \A g \in DOMAIN acc : LET a == acc[g] IN
        /\ Chk("rank-error-within-published-epsilon", a.exc * 10000 <= Allowed(100, a.T) * a.q)
        /\ Chk("pmf-error-within-published-epsilon", a.pmfexc * 10000 <= Allowed(100, a.T) * a.T)
-       /\ Chk("req-bounds-1-std-dev", a.fail[1] * 10000 <= Allowed(3173, a.T) * a.q)
-       /\ Chk("req-bounds-2-std-dev", a.fail[2] * 10000 <= Allowed(455, a.T) * a.q)
-       /\ Chk("req-bounds-3-std-dev", a.fail[3] * 10000 <= Allowed(27, a.T) * a.q)
+       \* REQ bound coverage.  The directed group "req-mixed-k" (small k below the top of a merge tree) demonstrates the recorded
+       \* known finding C08:req-mixed-k-merge-bounds in every run: where its coverage fails the marker is printed and the trace
+       \* continues; in every other group the same clause is a hard check
+       /\ IF g = "req-mixed-k"
+          THEN IF Coverage(a) THEN TRUE ELSE Known("C08:req-mixed-k-merge-bounds")
+          ELSE /\ Chk("req-bounds-1-std-dev", a.fail[1] * 10000 <= Allowed(3173, a.T) * a.q)
+               /\ Chk("req-bounds-2-std-dev", a.fail[2] * 10000 <= Allowed(455, a.T) * a.q)
+               /\ Chk("req-bounds-3-std-dev", a.fail[3] * 10000 <= Allowed(27, a.T) * a.q)
        /\ \A j \in DOMAIN a.sum :
             Chk("downsampling-merge-unbiased", Abs(a.sum[j]) <= 6 * ISqrt(a.sq[j]) + 2 * a.T)
   /\ UNCHANGED acc
